@@ -204,7 +204,7 @@ class BatchSage:
             for feature in permutation_chain:
                 x_s[feature] = x_i[feature]
                 predictions = []
-                for _ in range(1, n_inner_samples + 1):
+                for _ in range(n_inner_samples):
                     x_marginal = x_data[random.randint(0, len(x_data) - 1)]
                     x_marginal = {**x_marginal, **x_s}
                     predictions.append(self._model_function(x_marginal))
